@@ -41,6 +41,7 @@ where
             info: RefCell::new(PublishInfo {
                 aliases: HashMap::default(),
                 inflight: HashSet::default(),
+                inflight_rel: HashSet::default(),
             }),
         }),
         _t: PhantomData,
@@ -65,6 +66,8 @@ struct Inner<C> {
 
 struct PublishInfo {
     inflight: HashSet<NonZeroU16>,
+    /// QoS 2 packet ids waiting for PUBREL
+    inflight_rel: HashSet<NonZeroU16>,
     aliases: HashMap<NonZeroU16, ByteString>,
 }
 
@@ -231,7 +234,7 @@ where
                 }
             }
             Decoded::Packet(Packet::PublishRelease(pkt), size) => {
-                if self.inner.info.borrow().inflight.contains(&pkt.packet_id) {
+                if self.inner.info.borrow_mut().inflight_rel.remove(&pkt.packet_id) {
                     let packet_id = pkt.packet_id.get();
                     self.inner.control_pkt(ProtocolMessage::pubrel(pkt, size), packet_id).await
                 } else {
@@ -327,6 +330,8 @@ where
         // QoS 2 publish keeps packet id until PUBREL, unless publish is refused
         if !qos2 || ack.reason_code as u8 >= 0x80 {
             inner.info.borrow_mut().inflight.remove(&id);
+        } else {
+            inner.info.borrow_mut().inflight_rel.insert(id);
         }
         let ack = codec::PublishAck {
             packet_id: id,
@@ -370,8 +375,12 @@ impl<C> Inner<C> {
                     &result.packet,
                     Pkt::Packet(Packet::PublishReceived(ack)) if (ack.reason_code as u8) < 0x80
                 );
-                if !received && let Some(id) = NonZeroU16::new(packet_id) {
-                    self.info.borrow_mut().inflight.remove(&id);
+                if let Some(id) = NonZeroU16::new(packet_id) {
+                    if received {
+                        self.info.borrow_mut().inflight_rel.insert(id);
+                    } else {
+                        self.info.borrow_mut().inflight.remove(&id);
+                    }
                 }
                 result
             }
